@@ -9,6 +9,9 @@ KEYS = ["dovetails_L", "dovetails_R", "edges_to_contained", "edges_to_containers
         "internals", "gaps_L", "gaps_R"]
 
 
+_VC = "\tco:Z:GFAPY_virtual_line"     # commentary gfapy appends to placeholders
+
+
 def _pos(s):
   if s.endswith("$"):
     return int(s[:-1]), True
@@ -21,7 +24,7 @@ def expected(text):
   coll = {}
   def add(seg, key, t):
     coll.setdefault(seg, {k: [] for k in KEYS})[key].append(canon_text(t))
-  lines = [l for l in text.split("\n") if l]
+  lines = [l[:-len(_VC)] if l.endswith(_VC) else l for l in text.split("\n") if l]
   for t in lines:
     f = t.split("\t")
     if f[0] == "S":
@@ -96,4 +99,59 @@ def check(g):
     want = sorted(set(_other(t, s) for t in exp[s]["edges_to_contained"]))
     got = sorted(set(str(x.name) for x in seg.contained))
     if want != got: bad.append("%s.contained: spec %r, gfapy %r" % (s, want, got))
+  return bad
+
+
+# ---------------------------------------------------------------------------
+# C16 oracle: components and counters from the written text
+# ---------------------------------------------------------------------------
+def topology_expected(text):
+  lines = [l[:-len(_VC)] if l.endswith(_VC) else l for l in text.split("\n") if l]
+  segs, pairs = [], []
+  n = {"dovetails": 0, "containments": 0, "internals": 0}
+  touched = set()
+  for t in lines:
+    f = t.split("\t")
+    if f[0] == "S":
+      segs.append(f[1])
+  for t in lines:
+    f = t.split("\t")
+    if f[0] == "L":
+      e1, e2 = edgesem.l_ends(f[2], f[4])
+      pairs.append((f[1], f[3])); n["dovetails"] += 1
+      touched.add((f[1], e1)); touched.add((f[3], e2))
+    elif f[0] == "C":
+      n["containments"] += 1
+    elif f[0] == "E":
+      b1, _ = _pos(f[4]); e1, l1 = _pos(f[5]); b2, _ = _pos(f[6]); e2, l2 = _pos(f[7])
+      c = edgesem.e_class(f[2][-1], edgesem.interval_kind(b1, e1, l1), f[3][-1], edgesem.interval_kind(b2, e2, l2))
+      if c["kind"] == "dovetail":
+        pairs.append((f[2][:-1], f[3][:-1])); n["dovetails"] += 1
+        touched.add((f[2][:-1], c["end1"])); touched.add((f[3][:-1], c["end2"]))
+      elif c["kind"] == "containment":
+        n["containments"] += 1
+      else:
+        n["internals"] += 1
+  comps = edgesem.components(segs, pairs)
+  n["dead_ends"] = sum(1 for s in segs for e in "LR" if (s, e) not in touched)
+  return comps, n
+
+
+def topology_check(g):
+  bad = []
+  comps, n = topology_expected(str(g))
+  got = set(frozenset(str(s.name) for s in c) for c in g.connected_components())
+  if got != comps:
+    bad.append("connected_components: spec %r, gfapy %r" % (sorted(map(sorted, comps)), sorted(map(sorted, got))))
+  if sum(len(c) for c in g.connected_components()) != len(g.segment_names):
+    bad.append("connected_components is not a partition of the segments")
+  for s in g.segment_names:
+    cl = frozenset(str(x.name) for x in g.segment_connected_component(s))
+    want = [c for c in comps if str(s) in c][0]
+    if cl != want:
+      bad.append("segment_connected_component(%s): spec %r, gfapy %r" % (s, sorted(want), sorted(cl)))
+  for k, attr in (("dovetails", "n_dovetails"), ("containments", "n_containments"),
+                  ("internals", "n_internals"), ("dead_ends", "n_dead_ends")):
+    if getattr(g, attr) != n[k]:
+      bad.append("%s: spec %d, gfapy %d" % (attr, n[k], getattr(g, attr)))
   return bad
